@@ -187,6 +187,71 @@ pub fn run_dec_check(ctx: &Ctx, check: &DecCheck) -> Stats {
     if fw::should_stop() {
         return total;
     }
+    // ---- stride family: an ASCII run whose length straddles the 16-byte strides of the decoders'
+    // ASCII fast paths, then one atom, with capacities around the run length
+    let st = par_run(ctx, n_enc, |part, st| {
+        let enc = check.encs[part];
+        let algo = algo_for(enc);
+        let is16 = matches!(algo, Algo::Utf16(_));
+        let atoms = hist::atoms(algo);
+        let mut sc = Scratch::new();
+        for l in [7usize, 15, 16, 17, 31, 32, 33, 48] {
+            for a in &atoms {
+                if fw::should_stop() {
+                    return;
+                }
+                let mut stream: Vec<u8> = Vec::new();
+                for i in 0..l {
+                    let c = b'a' + (i % 26) as u8;
+                    match algo {
+                        Algo::Utf16(true) => {
+                            stream.push(0);
+                            stream.push(c);
+                        }
+                        Algo::Utf16(false) => {
+                            stream.push(c);
+                            stream.push(0);
+                        }
+                        _ => stream.push(c),
+                    }
+                }
+                let run_bytes = stream.len();
+                stream.extend_from_slice(a);
+                if is16 {
+                    stream.extend_from_slice(if algo == Algo::Utf16(true) { b"\x00b" } else { b"b\x00" });
+                } else {
+                    stream.push(b'b');
+                }
+                for &sink in &check.sinks {
+                    for &repl in &check.repls {
+                        for delta in 0..=8usize {
+                            let cap = (l + delta).saturating_sub(2).max(sink.min_cap());
+                            for caps in [vec![cap], vec![cap, 64]] {
+                                for cuts in [vec![], vec![run_bytes], vec![run_bytes + 1]] {
+                                    let h = DecHistory { enc, mode: check.modes[0], sink, repl, stream: stream.clone(), cuts, last_on_empty: delta & 1 == 1, caps: caps.clone(), fill: check.fills[delta % check.fills.len()], align: (l + delta) & 15 };
+                                    st.evals += 1;
+                                    st.class("ascii-run-then-sequence-at-the-output-limit");
+                                    if let Some((msg, sig)) = (check.verdict)(&h, &mut sc, st, true) {
+                                        if let Some(id) = fw::known_open_id(&sig) {
+                                            st.known_hit(id);
+                                        } else {
+                                            st.violations.push(violation_for(&h, check, msg, sig));
+                                            return;
+                                        }
+                                    }
+                                }
+                            }
+                        }
+                    }
+                }
+            }
+        }
+    });
+    total.merge(st);
+    total.exhaustive.push("stride family: ASCII run of 7/15/16/17/31/32/33/48 characters + each atom + 'b' x capacities run length-2..+6 x cuts {none, before, inside the atom} x sinks x modes".into());
+    if fw::should_stop() {
+        return total;
+    }
     // ---- random histories
     let parts_per_enc = 2usize;
     let per_part = (check.random_per_enc / parts_per_enc as u64).max(1);
